@@ -302,6 +302,152 @@ func c28packets(r *verifrt.R, k *c28counts) {
 		}
 	})
 
+	// Two endpoints talking in both directions through several key updates (RFC 9001 6): each
+	// has its own updatingKeyPair, packets are delivered in order (some are lost), every packet
+	// carries the acknowledgement of what its sender has received so far, and packet numbers jump
+	// past the sender's update threshold - only while neither side is in an update and nothing is
+	// in flight, the one moment at which RFC 9001 6.1 certainly permits the next update. Every
+	// delivered packet was written with keys its receiver has, so it must decrypt to the packet
+	// number and payload that were written, and no authentication failure may be counted.
+	r.CasesParallel("packets-short-conversation", r.N(600, 20000), 0, func(c *verifrt.Case) {
+		rng := c.Rng
+		suite := c28suites[rng.IntN(3)]
+		type pkt struct {
+			num  packetNumber
+			wire []byte
+			pay  []byte
+			acks []packetNumber // packet numbers of the receiver this packet acknowledges
+			desc string
+		}
+		type end struct {
+			name    string
+			k       updatingKeyPair
+			dcid    []byte // connection id of the PEER (what this endpoint writes into its packets)
+			next    packetNumber
+			acked   packetNumber   // largest of its packets the peer has acknowledged
+			recvd   packetNumber   // largest packet number received
+			unacked []packetNumber // received, not yet acknowledged
+			queue   []*pkt         // in flight to the peer
+			updates int
+		}
+		sAB, sBA := c28secret(rng, suite), c28secret(rng, suite)
+		a, b := &end{name: "A", acked: -1, recvd: -1}, &end{name: "B", acked: -1, recvd: -1}
+		a.k.init()
+		b.k.init()
+		a.k.w.init(suite, sAB)
+		b.k.r.init(suite, sAB)
+		b.k.w.init(suite, sBA)
+		a.k.r.init(suite, sBA)
+		a.dcid, b.dcid = c28rand(rng, []int{0, 8, 20}[rng.IntN(3)]), c28rand(rng, []int{0, 8, 20}[rng.IntN(3)])
+		a.next, b.next = packetNumber(rng.IntN(140)), packetNumber(rng.IntN(140))
+		lossPct := []int{0, 0, 10, 30}[rng.IntN(4)]
+		var script []string
+		note := func(f string, x ...any) {
+			if len(script) < 400 {
+				script = append(script, fmt.Sprintf(f, x...))
+			}
+		}
+		send := func(x *end) bool {
+			var w packetWriter
+			w.reset(1200)
+			w.start1RTTPacket(x.next, x.acked, x.dcid)
+			if w.pktLim == len(w.b) {
+				return true
+			}
+			pay := c28rand(rng, max(1, min([]int{1, 4, 20, 300}[rng.IntN(4)], w.avail())))
+			pay[0] |= 1
+			w.b = append(w.b, pay...)
+			wasUpdating := x.k.updating
+			if w.finish1RTTPacket(x.next, x.acked, x.dcid, &x.k) == nil {
+				c.Violation("short-packet-not-written", "finish1RTTPacket returned nil for packet %d of %s", x.next, x.name)
+				return false
+			}
+			if x.k.updating && !wasUpdating {
+				x.updates++
+				k.add("conversation_key_updates_initiated_locally", 1)
+				if x.updates > 1 {
+					k.add("conversation_second_or_later_local_key_updates", 1)
+				}
+			}
+			p := &pkt{num: x.next, wire: append([]byte{}, w.datagram()...), pay: pay, acks: x.unacked}
+			p.desc = fmt.Sprintf("%s packet %d (largest acked %d, key phase bit %v, sender updating=%v)", x.name, x.next, x.acked, p.wire[0]&keyPhaseBit != 0, wasUpdating)
+			x.unacked = nil
+			x.queue = append(x.queue, p)
+			note("%s sends %d acks=%v bit=%v", x.name, p.num, p.acks, p.wire[0]&keyPhaseBit != 0)
+			x.next += 1 + packetNumber(rng.IntN(3))
+			return true
+		}
+		deliver := func(x, y *end) bool { // head of x's queue reaches y
+			p := x.queue[0]
+			x.queue = x.queue[1:]
+			if rng.IntN(100) < lossPct {
+				note("%s packet %d lost", x.name, p.num)
+				// what it acknowledged is acknowledged again by the next packet
+				x.unacked = append(append([]packetNumber{}, p.acks...), x.unacked...)
+				k.add("conversation_packets_lost", 1)
+				return true
+			}
+			before := y.k.authFailures
+			got, err := parse1RTTPacket(c28tight(p.wire), &y.k, len(x.dcid), y.recvd)
+			state := fmt.Sprintf("receiver %s: phase=%#x updating=%v minReceived=%d minSent=%d largest received=%d", y.name, y.k.phase, y.k.updating, y.k.minReceived, y.k.minSent, y.recvd)
+			if err != nil {
+				c.Describe(map[string]any{"suite": suite, "loss_pct": lossPct, "script": script})
+				c.Violation("short-packet-rejected-in-conversation", "%s does not decrypt at its receiver: %v; %s", p.desc, err, state)
+				return false
+			}
+			if y.k.authFailures != before {
+				c.Violation("auth-failure-counted-for-valid-packet", "%s decrypted, yet authFailures went from %d to %d; %s", p.desc, before, y.k.authFailures, state)
+			}
+			if got.num != p.num || len(got.payload) < len(p.pay) || !bytes.Equal(got.payload[:len(p.pay)], p.pay) || len(bytes.Trim(got.payload[len(p.pay):], "\x00")) != 0 {
+				c.Describe(map[string]any{"suite": suite, "loss_pct": lossPct, "script": script})
+				c.Violation("short-packet-roundtrip-fields", "%s parsed as num=%d payload=%x, written payload %x; %s", p.desc, got.num, got.payload, p.pay, state)
+				return false
+			}
+			k.add("conversation_packets_delivered", 1)
+			y.recvd = max(y.recvd, p.num)
+			y.unacked = append(y.unacked, p.num)
+			for _, n := range p.acks {
+				wasUpdating := y.k.updating
+				y.k.handleAckFor(n)
+				y.acked = max(y.acked, n)
+				if wasUpdating && !y.k.updating {
+					k.add("conversation_key_updates_completed", 1)
+				}
+			}
+			return true
+		}
+		for step, n := 0, 60+rng.IntN(200); step < n; step++ {
+			x, y := a, b
+			if rng.IntN(2) == 0 {
+				x, y = b, a
+			}
+			switch op := rng.IntN(10); {
+			case op < 4:
+				if len(x.queue) < 8 && !send(x) {
+					return
+				}
+			case op < 9:
+				if len(x.queue) > 0 && !deliver(x, y) {
+					return
+				}
+			default:
+				if !a.k.updating && !b.k.updating && len(a.queue) == 0 && len(b.queue) == 0 && x.next < x.k.updateAfter && x.k.updateAfter < 1<<40 {
+					note("%s jumps from %d to its update threshold %d", x.name, x.next, x.k.updateAfter)
+					x.next = x.k.updateAfter + packetNumber(rng.IntN(3))
+				}
+			}
+		}
+		for len(a.queue) > 0 || len(b.queue) > 0 {
+			if len(a.queue) > 0 && !deliver(a, b) {
+				return
+			}
+			if len(b.queue) > 0 && !deliver(b, a) {
+				return
+			}
+		}
+		r.Eval(a.updates+b.updates > 1, "conversation", suite, a.updates, b.updates, a.next, b.next, lossPct)
+	})
+
 	// Retry and Version Negotiation
 	r.Cases("packets-retry-vn", r.N(500, 20000), func(c *verifrt.Case) {
 		rng := c.Rng
